@@ -300,6 +300,25 @@ class UndeclaredNameVisitor(NodeVisitor):
         else:
             self.names.discard(node.name)
 
+    def visit_Macro(self, node: nodes.Macro | nodes.CallBlock) -> None:
+        """A macro or call block is a scope of its own.  A name that it
+        declares, such as a parameter, is only declared inside of it.
+        """
+        names = self.names.copy()
+
+        try:
+            self.generic_visit(node)
+        except VisitorExit:
+            # Everything that is still looked for inside was found.
+            pass
+
+        self.names = names
+
+        if self.undeclared == self.names:
+            raise VisitorExit()
+
+    visit_CallBlock = visit_Macro
+
     def visit_Block(self, node: nodes.Block) -> None:
         """Stop visiting a blocks."""
 
